@@ -24,6 +24,28 @@ def H(name, file, props, **kw):
     return d
 
 
+# Per-loop unwind whitelist of the connection-step harnesses (DESIGN R8): the harness attribute sets the global
+# bound to 2 (a loop over a concretely empty collection costs one exit test, phantom iterations over property
+# lists are cut); loops that really iterate get their bound here. Unwinding assertions stay on: a loop that
+# needs more than its bound is reported (inconclusive), never silently truncated.
+STEP_UWS = [
+    (r'verif_model', 8),                 # container / event-list models: capacity + 1
+    (r'verif_harness', 10),              # harness-side loops (monitor, count, reference models)
+    (r'variable_byte_integer', 5),       # 1-4 byte integers
+    (r'arrayvec', 6),
+    (r'memcmp|compare_bytes|SlicePartialEq|5slice3cmp', 8),
+    (r'value_allocator', 8),
+    (r'connection5store', 8),
+    (r'topic_alias_send|topic_alias_recv', 8),
+    (r'retain_mut', 8),
+    (r'connection4core', 5),             # loops of core.rs itself (drains, property scans, restore)
+    (r'packet_builder', 8),
+    (r'6cursor', 8),
+    (r'mqtt_string|mqtt_binary|arc_payload', 8),
+]
+
+
+
 CANARIES = [
     dict(name='canary_overflow', file='lib', props={}, expect_fail=True, est=5, timeout=300),
     dict(name='canary_oob', file='lib', props={}, expect_fail=True, est=5, timeout=300),
@@ -91,6 +113,7 @@ def S(name, props, **kw):
     kw.setdefault('est', 500)
     kw.setdefault('timeout', 3000)
     kw.setdefault('mem', 'M')
+    kw.setdefault('uws', STEP_UWS)
     return H(name, 'core', props, **kw)
 
 
@@ -188,7 +211,7 @@ S('st_reuse_client_v311_clean_connect', {'C10': 'quick', 'C07': 'thorough'}, stu
   bounds='two objects: a disconnected reused v3.1.1 client with symbolic leftovers (maxima, keep-alive values, one handled QoS2 id, one in-flight id) vs a fresh client, both sending a clean-session CONNECT with the same keep-alive',
   symbolic='leftover fields, h, i, keep-alive', encodes=['process_send_v3_1_1_connect', 'initialize', 'clear_store_related'])
 
-H('c17_can_receive_table', 'core', {'C17': 'quick'}, est=20, timeout=600, mem='M',
+H('c17_can_receive_table', 'core', {'C17': 'quick'}, est=20, timeout=600, mem='M', uws=STEP_UWS,
   bounds='can_receive(t) for all u8 t x {v3.1.1, v5.0} x {Client, Server, Any}', symbolic='t, version', encodes=['GenericConnection::can_receive (3 role instantiations)'])
 for v in ('v311', 'v5'):
     S('st_dispatch_client_' + v, {'C17': 'quick' if v == 'v311' else 'thorough', 'C05': 'thorough'}, stubs=_st, est=600, mem='L',
@@ -219,7 +242,7 @@ S('st_id_calls_total', {'C08': 'quick', 'C05': 'thorough'}, est=200,
   symbolic='a, b, q, op', encodes=['release_packet_id', 'register_packet_id', 'acquire_packet_id'])
 
 # =============================================================================== C14
-H('c14_total_size_kernel', 'core', {'C14': 'quick'}, est=20, timeout=600, mem='M',
+H('c14_total_size_kernel', 'core', {'C14': 'quick'}, est=20, timeout=600, mem='M', uws=STEP_UWS,
   bounds='remaining_length_to_total_size(rl) for all rl <= 268435455', symbolic='rl', encodes=['remaining_length_to_total_size', 'VariableByteInteger::from_u32'])
 S('st_send_puback_v5_limit', {'C14': 'quick'}, est=300,
   bounds='v5.0 PUBACK (4 bytes) sent by a connected server under a peer limit L over all u32 >= 1', symbolic='L, id, keep-alive', encodes=['process_send_v5_0_puback', 'validate_maximum_packet_size_send'])
@@ -254,7 +277,7 @@ for _kind, _v5, _ctor, _rr, _sr, _own in _g11.KINDS:
     for _rn, _rt in _g11.ROLES:
         _n = 'c11_cell_%s_%s' % (_rn, _kind)
         _t = 'quick' if _n in _c11_quick else ('opt' if _n in _c11_opt else 'thorough')
-        H(_n, 'c11', {'C11': _t}, est=500, timeout=3600, mem='M', stubs=_st,
+        H(_n, 'c11', {'C11': _t}, est=500, timeout=3600, mem='M', stubs=_st, uws=STEP_UWS,
           bounds='public send() of one %s packet on a %s-role connection: connection version in {v3.1.1, v5.0, undetermined}, status in {disconnected, connecting, connected}, need_store and offline_publish symbolic (36 cells)' % (_kind, _rn),
           symbolic='version, status, need_store, offline_publish, packet id', encodes=['GenericConnection::send', 'process_send_* of that kind'])
 
@@ -262,7 +285,7 @@ S('st_recv_connect_v311_server', {'C15': 'quick', 'C10': 'quick', 'C05': 'thorou
   bounds='CONNECT (keep-alive all u16, clean flag symbolic) received by a disconnected v3.1.1 server that kept the receive timeout of an earlier connection (all u16)', symbolic='old keep-alive, keep-alive, clean, need_store',
   encodes=['process_recv_v3_1_1_connect', 'v3_1_1::Connect::parse', 'initialize', 'refresh_pingreq_recv'])
 S('st_recv_connect_v5_server_tam', {'C05': 'quick', 'C13': 'thorough'}, stubs=_st, est=900, mem='XL', timeout=3600,
-  uws=[(r'PropertiesParse5parse', 3)],
+  uws=STEP_UWS + [(r'8property', 3)],
   bounds='v5.0 CONNECT with one property Topic Alias Maximum (all u16 incl. 0), keep-alive all u16, received by a disconnected server', symbolic='keep-alive, Topic Alias Maximum',
   encodes=['process_recv_v5_0_connect', 'v5_0::Connect::parse', 'Properties::parse', 'TopicAliasSend::new'])
 
@@ -316,7 +339,7 @@ K('c04_suback_family_prefixes', {'C04': 'thorough', 'C03': 'thorough'}, est=600,
   bounds='every prefix of SUBACK (v3.1.1, v5.0) and UNSUBACK (v5.0) bodies with one code', symbolic='3 bytes', encodes=['{v3_1_1,v5_0}::GenericSuback::parse', 'v5_0::GenericUnsuback::parse'])
 
 # =============================================================================== C13 steps
-_uw_props = [(r'PropertiesParse5parse', 3)]
+_uw_props = STEP_UWS + [(r'8property', 3)]
 S('st_send_publish_v5_manual_alias_bind', {'C13': 'quick'}, stubs=_st, est=900, mem='XL', timeout=3600,
   bounds='v5.0 QoS0 PUBLISH (topic in {a,b}) with Topic Alias ax (all u16 >= 1) sent by a connected client whose table (max 3) holds two earlier bindings (aliases, topics symbolic); sender table compared with a receiver model for aliases 1..=3',
   symbolic='k1, k2, a1, a2, kx, ax', encodes=['process_send_v5_0_publish', 'validate_topic_alias_range', 'TopicAliasSend::{insert_or_update,peek}', 'v5_0::GenericPublish::parse'])
